@@ -29,3 +29,19 @@ void h_pow2(void) {
     if (!r && n != 0) REACH("a non-zero non power of two");
     if (n == 0) REACH("zero");
 }
+
+/* Index lemma behind the s_g / s_h loops of the norm-argument verifier (which index gammas[log2 i],
+ * rho_inv_pows[log2 i] and s_g[i - 2^log2 i] for 1 <= i < len, the arrays having log2(len) resp. len
+ * entries): for EVERY power of two len and every 1 <= i < len.  This is a statement about the real
+ * secp256k1_bppp_log2, not about the loop code; C19.verify_gate / verify_b8 check the loop code itself
+ * for bounded lengths. */
+void h_log2_index(void) {
+    INPUT(uint64_t, len); INPUT(uint64_t, i);
+    size_t lg, li;
+    __CPROVER_assume(secp256k1_is_power_of_two((size_t)len) && 1 <= i && i < len);
+    lg = secp256k1_bppp_log2((size_t)len); li = secp256k1_bppp_log2((size_t)i);
+    __CPROVER_assert(li < lg, "C19 log2 index lemma: log2(i) < log2(len), so gammas[log2 i] and rho_inv_pows[log2 i] are inside arrays of log2(len) entries");
+    __CPROVER_assert(li < 64 && ((uint64_t)1 << li) <= i, "C19 log2 index lemma: 2^log2(i) <= i, so i - 2^log2(i) does not wrap and is an earlier index");
+    if (len == ((uint64_t)1 << 63) && i == len - 1) REACH("largest length and index");
+    if (len == 2) REACH("length 2");
+}
